@@ -167,6 +167,7 @@ def run_check(pid, tier, seed=0, procs=None):
     modname = 'props.%s' % pid.lower()
     mod = importlib.import_module(modname)
     units = mod.units(tier)
+    units = sorted(units, key=lambda d: -d.get('cost', 0))     # longest first (tail latency)
     procs = procs or min(16, max(1, len(units)))
     results = []
     if procs == 1 or len(units) == 1 or os.environ.get('VERIF_SERIAL'):
@@ -175,7 +176,7 @@ def run_check(pid, tier, seed=0, procs=None):
     else:
         ctxm = mp.get_context('fork')
         with ctxm.Pool(procs, maxtasksperchild=8) as pool:
-            for d in pool.imap_unordered(_worker, [(modname, ud, tier, seed) for ud in units]):
+            for d in pool.imap_unordered(_worker, [(modname, ud, tier, seed) for ud in units], chunksize=1):
                 results.append(d)
     results.sort(key=lambda d: d['name'])
     return finish(pid, tier, seed, mod, results, time.time() - t0)
